@@ -572,12 +572,6 @@ func (m *Manager) HandleStreamData(streamID uint64, flags uint8, data []byte) er
 		return fmt.Errorf("unknown stream %d", streamID)
 	}
 
-	// Handle FIN flags
-	if flags&protocol.FlagFinWrite != 0 {
-		stream.HandleRemoteFinWrite()
-	}
-	verifhook.Point("stream.fin_before_push", streamID, flags, len(data))
-
 	if len(data) > 0 {
 		if err := stream.PushData(data); err != nil {
 			return err
@@ -586,6 +580,14 @@ func (m *Manager) HandleStreamData(streamID uint64, flags uint8, data []byte) er
 		if m.onStreamData != nil {
 			m.onStreamData(stream, data)
 		}
+	}
+
+	verifhook.Point("stream.fin_before_push", streamID, flags, len(data))
+
+	// Handle FIN flags only after the frame's data is queued: a reader woken
+	// by the FIN must still find the data that arrived together with it.
+	if flags&protocol.FlagFinWrite != 0 {
+		stream.HandleRemoteFinWrite()
 	}
 
 	return nil
